@@ -324,6 +324,41 @@ def _elem_size(prog, coll):
     return None
 
 
+def _const_range_elem(prog, f, op):
+    """(lo, hi, off) if the operand is i + off with i the element of a `for i in lo..hi` / `lo..=hi-1` loop over integer constants"""
+    import iters as IT
+    import rules_fact as RF
+    l = op_local(op)
+    if l is None:
+        return None
+    off = 0
+    r = f.copy_root(l)
+    d = f.single_def(r)
+    # i - c computed just before (checked subtraction: `_t = SubWithOverflow(i, c); assert; _u = move _t.0`)
+    if d and d[0] == "assign" and d[3]["k"] == "use":
+        pl = op_place(d[3]["op"])
+        if pl is not None and len(pl[1]) == 1 and pl[1][0][0] == "field" and pl[1][0][1] == 0:
+            d2 = f.single_def(pl[0])
+            if d2 and d2[0] == "assign" and d2[3]["k"] == "binop" and d2[3]["op"].startswith(("Sub", "Add")):
+                c = an.const_of(f, d2[3]["r"])
+                if c is not None and isinstance(c.get("val"), int):
+                    off = -c["val"] if d2[3]["op"].startswith("Sub") else c["val"]
+                    op = d2[3]["l"]
+    for it in IT.iterations(prog, f, include_nested=False):
+        if it.kind != "loop":
+            continue
+        try:
+            ep = it.elem_path(op)
+        except Exception:
+            ep = None
+        if ep != ():
+            continue
+        rw = RF._range_window(f, it.chain())
+        if rw is not None and [n for n in IT.chain_names(it.chain()) if n not in ("new", "into_iter")] == []:
+            return rw[0], rw[1], off
+    return None
+
+
 def _window_item_len(prog, f, op):
     """N if the operand is (a reference to) the element of an iteration over slice.windows(N) / chunks_exact(N) with constant N, else None"""
     import iters as IT
@@ -367,6 +402,26 @@ def auto_discharge(f, site, prog=None):
             ic, lc = an.const_of(f, m["index"]), an.const_of(f, m["len"])
             if ic is not None and lc is not None and isinstance(ic.get("val"), int) and isinstance(lc.get("val"), int) and ic["val"] < lc["val"]:
                 return "constant index %d into fixed-size array of length %d" % (ic["val"], lc["val"])
+        if k == "BoundsCheck":
+            # t[x] under a dominating `x <= c` / `x < c` with c below the array's constant length
+            lc = an.const_of(f, m["len"])
+            if lc is not None and isinstance(lc.get("val"), int):
+                ub = an.implied_upper_bound(f, site.bb, m["index"])
+                if ub is not None and ub < lc["val"]:
+                    return "index <= %d (dominating comparison) into a fixed-size array of length %d" % (ub, lc["val"])
+        if k in ("BoundsCheck", "Overflow") and prog is not None:
+            # t[i] / t[i - c] / i - c where i runs over a constant range lo..hi: 0 <= lo - c and hi <= the array's constant length
+            r_ = _const_range_elem(prog, f, m["index"] if k == "BoundsCheck" else m["l"])
+            if r_ is not None:
+                lo, hi, off = r_
+                if k == "BoundsCheck":
+                    lc = an.const_of(f, m["len"])
+                    if lc is not None and isinstance(lc.get("val"), int) and lo + off >= 0 and hi + off <= lc["val"]:
+                        return "index i%+d with i in %d..%d into a fixed-size array of length %d" % (off, lo, hi, lc["val"])
+                elif m["op"] == "Sub" and off == 0:
+                    rc = an.const_of(f, m["r"])
+                    if rc is not None and isinstance(rc.get("val"), int) and lo - rc["val"] >= 0:
+                        return "i - %d with i in %d..%d" % (rc["val"], lo, hi)
         if k == "BoundsCheck" and prog is not None:
             # w[K] where w is an item of slice.windows(N) / chunks_exact(N) with constants K < N (every item has exactly N elements)
             ic = an.const_of(f, m["index"])
